@@ -158,6 +158,19 @@ func init() {
 			}
 			return &cell
 		},
+		rt + "Quiesce": func(fr *frame, a []value) value {
+			fr.i.block(&pendOp{what: "quiesce", cond: func() bool { return false }, fire: func() {}, quiesce: true})
+			return nil
+		},
+		rt + "LiveGoroutines": func(fr *frame, a []value) value {
+			n := 0
+			for _, g := range fr.i.sch.gs[1:] {
+				if g.state != gDone {
+					n++
+				}
+			}
+			return n
+		},
 		rt + "IsConcrete": func(fr *frame, a []value) value {
 			_, ok := bytesOf(a[0])
 			return ok
